@@ -226,6 +226,7 @@ type member struct {
 	base    string
 	alive   bool
 	removed bool
+	hung    bool // its Shutdown did not return: abandoned
 }
 
 type world struct {
@@ -420,12 +421,45 @@ func (w *world) pick(role string) *member {
 	return nil
 }
 
+// hungMembers counts the members abandoned by this process (each one leaks
+// its whole peer): past a handful the process stops exploring.
+var hungMembers int
+
+// shutdown stops a member through its own Shutdown. A Shutdown that does not
+// return (within 3 minutes of fake time) is reported and the member abandoned:
+// nothing else may be asked of it, or the whole history would hang with it.
+func (w *world) shutdown(m *member) bool {
+	if m.hung {
+		return false
+	}
+	done := make(chan struct{})
+	go func() {
+		defer close(done)
+		m.p.C.Shutdown(context.Background())
+	}()
+	select {
+	case <-done:
+		return true
+	case <-time.After(3 * time.Minute):
+		m.hung = true
+		m.alive = false
+		hungMembers++
+		w.fail("shutdown-hangs", "Shutdown of member %d did not return within 3 minutes", m.idx)
+		return false
+	}
+}
+
 // expectGone: the removed member stops itself and discards its consensus data.
 func (w *world) expectGone(m *member, where string) {
 	select {
 	case <-m.p.C.Done():
 	case <-time.After(5 * 2 * time.Second): // 5 peer-watch intervals
 		w.fail("removed-peer-still-running", "%s: removed member %d did not shut itself down within 5 peer-watch intervals", where, m.idx)
+		// it is out of the peerset all the same: stop it by hand so that the
+		// rest of the history does not ask a removed peer for anything
+		w.shutdown(m)
+		m.alive = false
+		m.removed = true
 		return
 	}
 	m.alive = false
@@ -529,7 +563,7 @@ func (w *world) apply(e event) bool {
 			}
 			for _, x := range w.members {
 				if x.idx == idx {
-					x.p.C.Shutdown(ctx) // (a removed peer shuts itself down; make sure)
+					w.shutdown(x) // (a removed peer shuts itself down; make sure)
 				}
 			}
 			w.settle(time.Second)
@@ -640,7 +674,7 @@ func (w *world) apply(e event) bool {
 			return true
 		}
 		f.p.Cfg.LeaveOnShutdown = true
-		f.p.C.Shutdown(ctx)
+		w.shutdown(f)
 		f.alive = false
 		delete(w.refSet, f.host.ID())
 		if _, err := os.Stat(f.rcfg.GetDataFolder()); err == nil {
@@ -681,14 +715,14 @@ func (w *world) apply(e event) bool {
 				w.fail("ready-before-synced", "a staging peer that nobody added reported itself ready holding %v; the cluster's pinset is %v", got, w.refPins)
 			}
 		}
-		m.p.C.Shutdown(ctx)
+		w.shutdown(m)
 		w.settle(time.Second)
 	case "restart":
 		m := w.pick("F")
 		if m == nil {
 			return false
 		}
-		m.p.C.Shutdown(ctx)
+		w.shutdown(m)
 		m.alive = false
 		w.settle(time.Second)
 		var ids []peer.ID
@@ -726,7 +760,9 @@ func run(t *testing.T, h history) (outcome string, viol []finding, states map[st
 		}
 		defer func() {
 			for _, m := range w.members {
-				m.p.Stop() // also for members shut down earlier: closes their DHT and context
+				if w.shutdown(m) {
+					m.p.Stop() // also for members shut down earlier: closes their DHT and context
+				}
 			}
 			for _, hh := range hosts {
 				hh.Close()
@@ -817,6 +853,11 @@ func TestHistories(t *testing.T) {
 		}
 		if time.Since(start) > budget {
 			R.NotExhaustive(fmt.Sprintf("shard %d: time budget reached after %d histories", shard, done))
+			sec.Exhaustive = false
+			break
+		}
+		if hungMembers >= 8 {
+			R.NotExhaustive(fmt.Sprintf("shard %d: stopped after %d histories: %d members whose Shutdown never returned had to be abandoned (each leaks a whole peer)", shard, done, hungMembers))
 			sec.Exhaustive = false
 			break
 		}
